@@ -126,6 +126,10 @@ def check(ctx):
             run.check(all([k for k, _ in s.yields] == ['wrap'] for s in sigs), 'R15', where(repo, rl.node), sf.qualname,
                       'every resource goes through the writer', 'a resource bypasses the stream writer')
 
+    # a later step must not advance the iterator of resources past the resource it is delivering: an observer upstream ends a
+    # resource (separator, finalisation, counters) when the next one is requested
+    from rules import rows as _rows
+    _rows.r13_no_materialise(ctx, rule='R13r', min_level=2)
     # 3. discarding steps drain what they drop; the driver drains everything
     stream.r6_consumption(ctx, rule='R6a')
     framework.r3_entrypoints(ctx)
